@@ -36,6 +36,7 @@ type call struct {
 var queries = []string{
 	`$.a.b`, `$.xs[@.k.Greater(1)].name`, `{OR,$.a.b.Equal(1),$.s.Contains("x")}`, `$.xs.Select("$.k").Sum()`, `$.xs.k.Sum(1,2)`,
 	`$.s.Left(2)`, `$.missing?.IsNull()`, `$.xs.Count()`, `$.a.b.Add($.xs.First().k)`, `$.xs.Select("$.name.Prefix(\"n\")")`, `$.a.Equal(`, ``, `$.s.DoesMatchRegex("^h")`,
+	`$.xs.AsJSON()`, `$.a.b.AsJSON()`, `$.a.AsJSON()`, `$.xs.k.Sum().AsJSON()`,
 	`$.s.DoesMatchRegex($.p)`, `$.s.ReplaceRegex($.p,"<$0>")`, `$.xs.Select("$.name.DoesMatchRegex(\"n[0-9]\")")`, `$.a.RemoveKeysByRegex($.p)`, `$.s.Equal("unterminated`, `$.s.Equal('ab'))`,
 }
 
@@ -164,7 +165,7 @@ func main() {
 					case 1:
 						c = call{kind: "validate", q: vqueries[rng.Intn(len(vqueries))], schema: rng.Intn(len(schemas)), cur: "s1"}
 					default:
-						c = call{kind: "do", op: 12 + rng.Intn(5), data: rng.Intn(len(shared))}
+						c = call{kind: "do", op: 16 + rng.Intn(5), data: rng.Intn(len(shared))}
 					}
 				}
 				plans[t] = append(plans[t], c)
